@@ -22,6 +22,17 @@ def main():
         mod = importlib.import_module('mc.props.' + REGISTRY[a.pid])
         run = common.Run(a.pid, a.tier, seed)
         coverage, assumptions = getattr(mod, 'run_' + a.pid)(run)
+        # history differential: the value of a constructor call must not depend on what was built before it
+        from .props import hd
+        exprs = hd.exprs_for(a.pid, a.tier)
+        if exprs:
+            n = common.history_differential(run, exprs)
+            coverage['transitions'] = coverage.get('transitions', 0) + n
+            coverage['traces_validated_against_impl'] = coverage.get('traces_validated_against_impl', 0) + n
+            coverage['rule'] = coverage.get('rule', '') + (
+                f' || history differential: {len(exprs)} constructor calls evaluated in fresh interpreters in four orders '
+                '(forward, reverse, doubled, odd-then-even); every evaluation of the same call must give the same value')
+            assumptions = list(assumptions) + ['the history differential explores four construction orders of a fixed list, not all orders']
         rc = run.finish(coverage, assumptions, collect_path=a.collect)
         return 0 if a.collect else rc
     except SystemExit:
